@@ -84,7 +84,8 @@ def logj_cases(exe):
             raise vlib.Infra("h_named logj failed")
         js = list(map(json.loads, (d / "j.ndjson").read_text().splitlines()))
         sep = next(unhx(j["sep"]) for j in js if "sep" in j)
-        return sep, [dict(k=j["k"], tpl=unhx(j["tpl"]), types=j["types"], lvl=j["lvl"]) for j in js if "k" in j]
+        return sep, [dict(k=j["k"], tpl=unhx(j["tpl"]), types=j["types"], lvl=j["lvl"],
+                          names=[n for n in j["names"].split(",") if n]) for j in js if "k" in j]
     finally:
         vlib.rm(d)
 
@@ -118,9 +119,12 @@ def _trace_line(st, rec, jfile):
     meta = {k: (rec["meta"][k] if k == "ts" else enc(unhx(rec["meta"][k]))) for k in rec["meta"]}
     nesc = needs_escaping(st["tpl"].replace(b"\n", b"")) or any(needs_escaping(v) for v in vals) or \
         any(needs_escaping(unhx(rec["meta"][k])) for k in rec["meta"] if k != "ts")
+    otext = unhx(rec["exp"]["text"])
     return {"op": "stmt", "i": st["id"], "tpl": chars(st["tpl"]), "nargs": len(st["args"]),
+            "varnames": list(st.get("varnames") or []),
             "oracle": {"ok": rec["exp"]["ok"], "pos": enc(st["refpos"]), "specs": [enc(s) for s in st["specs"]],
-                       "text": enc(unhx(rec["exp"]["text"])), "vals": [enc(v) for v in vals]},
+                       "text": enc(otext), "textnt": enc(otext[:-1] if otext.endswith(b"\n") else otext),
+                       "vals": [enc(v) for v in vals]},
             "text": enc(unhx(rec["text"])), "nwrites": rec["nwrites"],
             "pairs": [[enc(unhx(a)), enc(unhx(b))] for a, b in rec["pairs"]],
             "meta": meta,
@@ -367,16 +371,19 @@ def run(ck):
         "extra arguments (more arguments than placeholders) must still give one pair per argument; the key of an "
         "extra pair is not constrained",
         "text is compared exactly; statements whose values contain non-printable bytes are run with "
-        "check_printable_char disabled (raw mode) so that the backend's sanitising does not interfere; templates and "
-        "values never end with a newline (the backend strips one trailing newline from the message)",
+        "check_printable_char disabled (raw mode) so that the backend's sanitising does not interfere; when the "
+        "formatted text ends with a newline, the text with or without that one newline is accepted (the backend strips "
+        "it); values never end with a newline",
         "JSON: exactly one physical line shaped {...}\\n per statement is demanded always; parsing is demanded only "
         "when template (newlines aside), values and metadata contain no byte needing a JSON escape; members are "
         "matched by value, not by key name (timestamp, file name or path, line, thread id, logger, level, template "
         "with newlines replaced by a space or removed); the pairs must appear contiguously and in order",
         "argument types are std::string and long long; at most 3 arguments; a value with a newline inside is a value "
         "class of its own ('every value' in the property) next to plain/empty/separator bytes/quote",
-        "literal-only templates are executed with zero arguments only; multi-line literal-only templates are not "
-        "used (the backend's multi-line split is C12's subject)",
+        "literal-only templates are executed with zero arguments only; multi-line literal-only templates other than "
+        "the template \"\\n\" are not used (the backend's multi-line split is C12's subject)",
+        "LOGJ_ statements (compiled through the real macros for every arity 1..26 with distinct variable names and "
+        "distinct values per position): the i-th key must be the i-th variable name as written at the call site",
     ]
     exe = build_harness()
     _phase(ck, "build")
@@ -514,9 +521,10 @@ def run(ck):
     # 6. statements for the end-to-end runs
     stmts, by_id = [], {}
 
-    def add(tpl, ref, args, src, lvl=None, jcase=None, mode=None):
+    def add(tpl, ref, args, src, lvl=None, jcase=None, mode=None, varnames=None):
         st = dict(id=len(stmts) + 1, tpl=tpl, refpos=ref["pos"], specs=ref["specs"], names=ref["names"], toks=ref["toks"],
-                  args=args, src=src, lvl=lvl if lvl is not None else LVLS[len(stmts) % 3], jcase=jcase, mode=mode)
+                  args=args, src=src, lvl=lvl if lvl is not None else LVLS[len(stmts) % 3], jcase=jcase, mode=mode,
+                  varnames=varnames)
         stmts.append(st); by_id[st["id"]] = st
         return st
 
@@ -553,7 +561,10 @@ def run(ck):
              b"Hello from thread {thread_index} this is message {message_num:04} [{custom}]",
              b"multi\nline {a}\nend {b:>4}", b"{a}{b}{c}", b"{first_1:>8}|{second_2:<8}|{third_3:^8}|",
              b"{{}} {x} {{}}", b"}}{x}{{", b"{x:}", b"{x::>4}", b"{Name} and {X1:>3} upper case",
-             b"{z9_} {Z}", b"only {{escaped}} braces"]
+             b"{z9_} {Z}", b"only {{escaped}} braces",
+             # newlines in the template at index 0, at the last index, consecutive, and the template "\n" itself
+             b"\n{a}", b"\nlead {a} and {b}", b"{a}\n", b"tail {a:>3}\n", b"\n{a}\n", b"\n\n{a}", b"{a}\n\n{b}",
+             b"x\n\n\ny {a}", b"{a}\n\n", b"\n\n\n{a}\n\n", b"\n"]
     if cex_tpl:
         fixed.append(cex_tpl)
     extra_tpls = comps + fixed + [j["tpl"] for j in jc]
@@ -582,14 +593,20 @@ def run(ck):
         if not ref["acc"]:
             raise vlib.Infra(f"macro template {j['tpl']!r} not accepted by the reference grammar")
         types = j["types"]
-        base = [gen_value(rng, "plain" if c == "s" else "int") for c in types]
-        add(j["tpl"], ref, base, "macro", lvl=j["lvl"], jcase=j["k"], mode="default")
+        if len(j["names"]) != len(types) or len(ref["names"]) != len(types):
+            raise vlib.Infra(f"macro case {j['k']}: {len(types)} arguments, {len(j['names'])} variable names, "
+                             f"{len(ref['names'])} placeholders")
+        vn = [enc(n.encode()) for n in j["names"]]
+        # distinct values per position, so exchanged keys or values cannot go unnoticed
+        base = [("s", b"w%02d" % (i + 1), "plain") if c == "s" else ("i", b"%d" % (1000 + i + 1), "int") for i, c in enumerate(types)]
+        add(j["tpl"], ref, base, "macro", lvl=j["lvl"], jcase=j["k"], mode="default", varnames=vn)
+        add(j["tpl"], ref, base, "macro", lvl=j["lvl"], jcase=j["k"], mode="raw", varnames=vn)
+        spos = [i for i, c in enumerate(types) if c == "s"]
         for cls in ("empty", "quote", "psep", "sep", "nl"):
-            for pos, c in enumerate(types):
-                if c != "s":
-                    continue
+            for pos in (spos if len(types) <= 3 else rng.sample(spos, 1)):
                 a = list(base); a[pos] = gen_value(rng, cls)
-                add(j["tpl"], ref, a, "macro", lvl=j["lvl"], jcase=j["k"], mode="raw" if cls in ("sep", "psep") else "default")
+                add(j["tpl"], ref, a, "macro", lvl=j["lvl"], jcase=j["k"], mode="raw" if cls in ("sep", "psep") else "default",
+                    varnames=vn)
     # join/split value lists exported by TLC (raw mode), and the TLC counterexample first
     conc = {"1": SEP[0:1], "2": SEP[1:2], "3": SEP[2:3], "x": b"x", "q": b'"'}
     names3 = [b"a", b"b", b"c"]
@@ -698,15 +715,17 @@ def triage(ck, exe, rej, by_id, real, recs, batches, batch_of):
         special = tuple(sorted({a[2] for a in st["args"]} - {"plain", "model"}))
         if st["src"] == "split":
             special = ("sep",) if any(SEP in a[1] for a in st["args"]) else ("model",)
-        key = ((ssig, tuple(why), special, len(st["args"]) > len(st["names"]), st["mode"], b"\n" in st["tpl"])
+        key = ((ssig, tuple(why), special, len(st["args"]) > len(st["names"]), st["mode"], b"\n" in st["tpl"],
+                st["jcase"] if "logjkeys" in why else None)
                if ssig is None else (ssig,))
         groups.setdefault(key, []).append(i)
     ck.extra["rejection_groups"] = len(groups)
     # at most 80 groups are re-executed; one group of every coarse class (signature candidate) comes first
-    prim = lambda why: next((c for c in ("text", "keys", "npairs", "vals", "json1", "jparse", "jmemb", "jpairs") if c in why), "?")
+    prim = lambda why: next((c for c in ("text", "keys", "npairs", "vals", "json1", "jparse", "jmemb", "jpairs", "logjkeys")
+                             if c in why), "?")
     rank, seen = {}, {}
     for key in sorted(groups, key=lambda k: min(groups[k])):
-        coarse = key if len(key) == 1 else (prim(key[1]), key[2], key[5])
+        coarse = key if len(key) == 1 else (prim(key[1]), key[2], key[5], key[6])
         rank[key] = seen.get(coarse, 0)
         seen[coarse] = rank[key] + 1
     todo = sorted(groups.items(), key=lambda kv: (rank[kv[0]], min(kv[1])))[:80]
@@ -723,14 +742,19 @@ def triage(ck, exe, rej, by_id, real, recs, batches, batch_of):
         if st["src"] == "split" and any(SEP in a[1] for a in st["args"]):
             special = ["model"]
         special.sort(key=lambda c: c not in ("sep", "model", "nl"))
-        if b"\n" in st["tpl"] and st.get("jcase") is None:
-            special.append("tplnl")
         j0 = len(jobs)
         jobs.append((hist, st["mode"]))
         jobs.append(([_variant(st, rep)], st["mode"]))
         for cls in special:
             jobs.append(([_variant(st, rep, {cls})], st["mode"]))
-        plan.append((key, ids, rep, hist, special, j0))
+        # every special value class replaced at once (what remains is not caused by the values), and the same with the
+        # newlines of the template replaced by spaces
+        j_all = j_tpl = None
+        if special:
+            j_all = len(jobs); jobs.append(([_variant(st, rep, set(special))], st["mode"]))
+        if b"\n" in st["tpl"] and st.get("jcase") is None:
+            j_tpl = len(jobs); jobs.append(([_variant(st, rep, set(special) | {"tplnl"})], st["mode"]))
+        plan.append((key, ids, rep, hist, special, j0, j_all, j_tpl))
     with ThreadPoolExecutor(max_workers=vlib.NCPU) as ex:
         outs = list(ex.map(lambda j: run_batch(exe, j[0], j[1]), jobs))
     # renumber so that every re-executed statement has its own id in the combined trace
@@ -744,7 +768,8 @@ def triage(ck, exe, rej, by_id, real, recs, batches, batch_of):
             all_lines.append(ln)
     rj, od = validate(ck, all_lines, par=4)
     sig_count, reported = {}, {}
-    for key, ids, rep, hist, special, j0 in plan:
+    passes_without_logjkeys = lambda why: set(why) <= {"logjkeys", "jpairs"}
+    for key, ids, rep, hist, special, j0, j_all, j_tpl in plan:
         st = by_id[rep]
         nid = newid[(j0, rep)]
         if nid not in rj:
@@ -752,24 +777,27 @@ def triage(ck, exe, rej, by_id, real, recs, batches, batch_of):
             continue
         why = rj[nid]
         passes = lambda ji: newid[(ji, rep)] not in rj and newid[(ji, rep)] not in od
-        primary = next((c for c in ("text", "keys", "npairs", "vals", "json1", "jparse", "jmemb", "jpairs") if c in why), "?")
         if len(key) == 1:
             sig = key[0]
         elif passes(j0 + 1):
             # the same statement in a fresh process is accepted: the failure depends on what was logged before
-            sig = "named-args-cache:history-dependent:" + primary
+            sig = "named-args-cache:history-dependent:" + prim(why)
         else:
             cause = next((cls for vi, cls in enumerate(special) if passes(j0 + 2 + vi)), None)
+            # what still fails once the special values are gone
+            residual = rj.get(newid[(j_all, rep)], why) if j_all is not None else why
             if cause in ("sep", "model"):
                 sig = SIG_SPLIT
             elif cause == "nl":
                 sig = SIG_NL
-            elif cause == "tplnl":
-                sig = "json-line:template-contains-newline"
             elif cause:
-                sig = f"named-args-value:{cause}:{primary}"
+                sig = f"named-args-value:{cause}:{prim(why)}"
+            elif "logjkeys" in residual and passes_without_logjkeys(residual):
+                sig = f"named-args-logj:key-is-not-the-variable-name:arity={len(st['args'])}"
+            elif j_tpl is not None and passes(j_tpl):
+                sig = "json-line:template-contains-newline"
             else:
-                sig = "named-args-e2e:" + primary + (":extra-args" if len(st["args"]) > len(st["names"]) else "")
+                sig = "named-args-e2e:" + prim(residual) + (":extra-args" if len(st["args"]) > len(st["names"]) else "")
         sig_count[sig] = sig_count.get(sig, 0) + len(ids)
         if sig in reported or len(ck.violations) >= 10:
             continue
@@ -790,13 +818,14 @@ def triage(ck, exe, rej, by_id, real, recs, batches, batch_of):
 def _ser(st):
     return {"id": st["id"], "tpl": hx(st["tpl"]), "refpos": hx(st["refpos"]), "specs": [hx(s) for s in st["specs"]],
             "names": [hx(s) for s in st["names"]], "toks": st["toks"], "lvl": st["lvl"], "jcase": st["jcase"],
-            "mode": st["mode"], "src": st["src"], "args": [[a[0], hx(a[1]), a[2]] for a in st["args"]]}
+            "mode": st["mode"], "src": st["src"], "args": [[a[0], hx(a[1]), a[2]] for a in st["args"]],
+            "varnames": st.get("varnames")}
 
 
 def _deser(j):
     return dict(id=j["id"], tpl=unhx(j["tpl"]), refpos=unhx(j["refpos"]), specs=[unhx(s) for s in j["specs"]],
                 names=[unhx(s) for s in j["names"]], toks=j["toks"], lvl=j["lvl"], jcase=j["jcase"], mode=j["mode"],
-                src=j["src"], args=[(a[0], unhx(a[1]), a[2]) for a in j["args"]])
+                src=j["src"], args=[(a[0], unhx(a[1]), a[2]) for a in j["args"]], varnames=j.get("varnames"))
 
 
 def replay(ck, path):
